@@ -11,4 +11,527 @@ def Dec.Canonical (s : Dec) : Prop :=
 
 instance (s : Dec) : Decidable s.Canonical := by unfold Dec.Canonical; infer_instance
 
+/-! ## value of a digit list -/
+
+theorem Dec.toNat_nil : Dec.toNat [] = 0 := rfl
+
+theorem Dec.toNat_single (d : Nat) : Dec.toNat [d] = d := by simp [Dec.toNat]
+
+theorem Dec.toNat_append_single (s : Dec) (d : Nat) :
+    Dec.toNat (s ++ [d]) = Dec.toNat s * 10 + d := by
+  simp [Dec.toNat, List.foldl_append]
+
+theorem Dec.toNat_reverse_cons (x : Nat) (r : List Nat) :
+    Dec.toNat (x :: r).reverse = Dec.toNat r.reverse * 10 + x := by
+  rw [List.reverse_cons, Dec.toNat_append_single]
+
+theorem Dec.foldl_shift (l : List Nat) (a : Nat) :
+    l.foldl (fun n d => n * 10 + d) a = a * 10 ^ l.length + l.foldl (fun n d => n * 10 + d) 0 := by
+  induction l generalizing a with
+  | nil => simp
+  | cons x xs ih =>
+    simp only [List.foldl_cons, List.length_cons]
+    rw [ih (a * 10 + x), ih (0 * 10 + x)]
+    grind
+
+theorem Dec.toNat_cons (d : Nat) (s : Dec) :
+    Dec.toNat (d :: s) = d * 10 ^ s.length + Dec.toNat s := by
+  simp only [Dec.toNat, List.foldl_cons]
+  rw [Dec.foldl_shift]
+  simp
+
+theorem Dec.toNat_zero_cons (s : Dec) : Dec.toNat (0 :: s) = Dec.toNat s := by
+  simp [Dec.toNat_cons]
+
+theorem Dec.toNat_replicate_zero (n : Nat) : Dec.toNat (List.replicate n 0) = 0 := by
+  induction n with
+  | zero => rfl
+  | succ n ih => rw [List.replicate_succ, Dec.toNat_zero_cons, ih]
+
+theorem Dec.toNat_lt (s : Dec) (h : ∀ d ∈ s, d < 10) : Dec.toNat s < 10 ^ s.length := by
+  induction s with
+  | nil => simp [Dec.toNat]
+  | cons d t ih =>
+    have hd : d < 10 := h d (by simp)
+    have ht := ih (fun e he => h e (by simp [he]))
+    have h1 : d * 10 ^ t.length ≤ 9 * 10 ^ t.length := Nat.mul_le_mul_right _ (by omega)
+    rw [Dec.toNat_cons, List.length_cons, Nat.pow_succ]
+    omega
+
+theorem Dec.le_toNat_cons (d : Nat) (t : Dec) (hd : d ≠ 0) : 10 ^ t.length ≤ Dec.toNat (d :: t) := by
+  have h1 : 1 * 10 ^ t.length ≤ d * 10 ^ t.length := Nat.mul_le_mul_right _ (by omega)
+  rw [Dec.toNat_cons]
+  omega
+
+/-! ## canonical strings, characterised by value -/
+
+theorem Dec.Canonical.digits {s : Dec} (h : s.Canonical) : ∀ d ∈ s, d < 10 := h.1
+
+theorem Dec.Canonical.ne_nil {s : Dec} (h : s.Canonical) : s ≠ [] := h.2.1
+
+theorem Dec.Canonical.length_pos {s : Dec} (h : s.Canonical) : 0 < s.length :=
+  List.length_pos_iff.mpr h.2.1
+
+theorem Dec.Canonical.lower {s : Dec} (h : s.Canonical) (h2 : 2 ≤ s.length) :
+    10 ^ (s.length - 1) ≤ Dec.toNat s := by
+  obtain ⟨_, _, h0⟩ := h
+  match s, h0, h2 with
+  | d :: t, h0, h2 =>
+    have hd : d ≠ 0 := by
+      intro hd
+      subst hd
+      have := h0 rfl
+      simp at this
+      subst this
+      simp at h2
+    simpa using Dec.le_toNat_cons d t hd
+
+theorem Dec.canonical_of_lower (s : Dec) (hd : ∀ d ∈ s, d < 10) (hne : s ≠ [])
+    (hl : 2 ≤ s.length → 10 ^ (s.length - 1) ≤ Dec.toNat s) : s.Canonical := by
+  refine ⟨hd, hne, ?_⟩
+  match s, hd, hne, hl with
+  | d :: t, hd, _, hl =>
+    intro h0
+    simp at h0
+    subst h0
+    cases t with
+    | nil => rfl
+    | cons e u =>
+      exfalso
+      have h1 := hl (by simp)
+      have h2 := Dec.toNat_lt (e :: u) (fun x hx => hd x (by simp [hx]))
+      rw [Dec.toNat_zero_cons] at h1
+      simp at h1 h2
+      omega
+
+theorem Dec.canonical_single (d : Nat) (hd : d < 10) : Dec.Canonical [d] := by
+  refine ⟨by simpa using hd, by simp, ?_⟩
+  intro h
+  simp at h
+  simp [h]
+
+theorem Dec.canonical_cons_of_ne_zero (d : Nat) (t : Dec) (hd : d ≠ 0) (h10 : d < 10)
+    (ht : ∀ e ∈ t, e < 10) : Dec.Canonical (d :: t) := by
+  refine ⟨?_, by simp, ?_⟩
+  · intro e he
+    simp at he
+    rcases he with rfl | he
+    · exact h10
+    · exact ht e he
+  · intro h
+    simp at h
+    exact absurd h hd
+
+theorem Dec.eq_of_toNat_eq_of_length_eq (s t : Dec) (hs : ∀ d ∈ s, d < 10) (ht : ∀ d ∈ t, d < 10)
+    (hl : s.length = t.length) (hv : Dec.toNat s = Dec.toNat t) : s = t := by
+  induction s generalizing t with
+  | nil =>
+    cases t with
+    | nil => rfl
+    | cons _ _ => simp at hl
+  | cons d s ih =>
+    cases t with
+    | nil => simp at hl
+    | cons e t =>
+      have hl' : s.length = t.length := by simpa using hl
+      have hs' : ∀ x ∈ s, x < 10 := fun x hx => hs x (by simp [hx])
+      have ht' : ∀ x ∈ t, x < 10 := fun x hx => ht x (by simp [hx])
+      have b1 := Dec.toNat_lt s hs'
+      have b2 := Dec.toNat_lt t ht'
+      rw [Dec.toNat_cons, Dec.toNat_cons, hl'] at hv
+      rw [hl'] at b1
+      have hde : d = e := by
+        rcases Nat.lt_trichotomy d e with h | h | h
+        · exfalso
+          have := Nat.mul_le_mul_right (10 ^ t.length) (show d + 1 ≤ e from h)
+          rw [Nat.succ_mul] at this
+          omega
+        · exact h
+        · exfalso
+          have := Nat.mul_le_mul_right (10 ^ t.length) (show e + 1 ≤ d from h)
+          rw [Nat.succ_mul] at this
+          omega
+      subst hde
+      have : Dec.toNat s = Dec.toNat t := by omega
+      rw [ih t hs' ht' hl' this]
+
+theorem Dec.Canonical.length_le {s t : Dec} (hs : s.Canonical) (ht : t.Canonical)
+    (h : Dec.toNat s = Dec.toNat t) : s.length ≤ t.length := by
+  apply Classical.byContradiction
+  intro hlt
+  have hlt : t.length < s.length := by omega
+  have h1 := hs.lower (by have := ht.length_pos; omega)
+  have h2 := Dec.toNat_lt t ht.digits
+  have h3 : 10 ^ t.length ≤ 10 ^ (s.length - 1) := Nat.pow_le_pow_right (by omega) (by omega)
+  omega
+
+theorem Dec.canonical_unique (s t : Dec) (hs : s.Canonical) (ht : t.Canonical)
+    (h : Dec.toNat s = Dec.toNat t) : s = t :=
+  Dec.eq_of_toNat_eq_of_length_eq s t hs.digits ht.digits
+    (Nat.le_antisymm (hs.length_le ht h) (ht.length_le hs h.symm)) h
+
+theorem Dec.canonical_zero : Dec.Canonical [0] := Dec.canonical_single 0 (by omega)
+
+theorem Dec.Canonical.eq_zero_of_toNat {s : Dec} (hs : s.Canonical) (h : Dec.toNat s = 0) :
+    s = [0] :=
+  Dec.canonical_unique s [0] hs Dec.canonical_zero (by rw [h]; rfl)
+
+/-! ## stripZeros -/
+
+theorem toNat_stripZeros (s : Dec) : Dec.toNat (stripZeros s) = Dec.toNat s := by
+  induction s with
+  | nil => rfl
+  | cons d t ih =>
+    cases d with
+    | zero => rw [stripZeros, ih, Dec.toNat_zero_cons]
+    | succ d => simp [stripZeros]
+
+theorem canonical_stripZeros (s : Dec) (h : ∀ d ∈ s, d < 10) : (stripZeros s).Canonical := by
+  induction s with
+  | nil => exact Dec.canonical_zero
+  | cons d t ih =>
+    have ht : ∀ e ∈ t, e < 10 := fun x hx => h x (by simp [hx])
+    cases d with
+    | zero => rw [stripZeros]; exact ih ht
+    | succ d =>
+      simp only [stripZeros]
+      exact Dec.canonical_cons_of_ne_zero (d + 1) t (by omega) (h _ (by simp)) ht
+
+/-! ## addition -/
+
+theorem addStep_foldr_spec (ps : List (Nat × Nat)) (hp : ∀ p ∈ ps, p.1 < 10 ∧ p.2 < 10) :
+    (ps.foldr addStep (0, [])).2.length = ps.length ∧
+    (∀ d ∈ (ps.foldr addStep (0, [])).2, d < 10) ∧
+    (ps.foldr addStep (0, [])).1 ≤ 1 ∧
+    (ps.foldr addStep (0, [])).1 * 10 ^ ps.length + Dec.toNat (ps.foldr addStep (0, [])).2 =
+      Dec.toNat (ps.map Prod.fst) + Dec.toNat (ps.map Prod.snd) := by
+  induction ps with
+  | nil => simp [Dec.toNat]
+  | cons p ps ih =>
+    obtain ⟨ih1, ih2, ih3, ih4⟩ := ih (fun q hq => hp q (by simp [hq]))
+    have hp0 := hp p (by simp)
+    simp only [List.foldr_cons, List.map_cons, List.length_cons]
+    generalize ps.foldr addStep (0, []) = r at ih1 ih2 ih3 ih4
+    obtain ⟨c, ds⟩ := r
+    simp only at ih1 ih2 ih3 ih4
+    simp only [addStep]
+    refine ⟨by simp [ih1], ?_, by omega, ?_⟩
+    · intro d hd
+      simp at hd
+      rcases hd with rfl | hd
+      · omega
+      · exact ih2 d hd
+    · rw [Dec.toNat_cons, Dec.toNat_cons, Dec.toNat_cons, ih1, List.length_map, List.length_map,
+        Nat.pow_succ]
+      have hs := Nat.div_add_mod (p.1 + p.2 + c) 10
+      generalize (p.1 + p.2 + c) / 10 = q at hs ⊢
+      generalize (p.1 + p.2 + c) % 10 = m at hs ⊢
+      grind
+
+theorem calculusAddition_spec (s : Dec) (b : Nat) (hs : s.Canonical) (hb : b < 10) :
+    (calculusAddition s b).Canonical ∧ (calculusAddition s b).toNat = s.toNat + b := by
+  have hlen := hs.length_pos
+  have hbl : (List.replicate (s.length - 1) 0 ++ [b]).length = s.length := by
+    simp; omega
+  have hbase : Dec.toNat (List.replicate (s.length - 1) 0 ++ [b]) = b := by
+    rw [Dec.toNat_append_single, Dec.toNat_replicate_zero]; omega
+  have hbd : ∀ d ∈ List.replicate (s.length - 1) 0 ++ [b], d < 10 := by
+    intro d hd
+    simp at hd
+    rcases hd with ⟨_, rfl⟩ | rfl <;> omega
+  have hp : ∀ p ∈ s.zip (List.replicate (s.length - 1) 0 ++ [b]), p.1 < 10 ∧ p.2 < 10 := by
+    intro p hp
+    obtain ⟨x, y⟩ := p
+    have := List.of_mem_zip hp
+    exact ⟨hs.digits _ this.1, hbd _ this.2⟩
+  obtain ⟨h1, h2, h3, h4⟩ := addStep_foldr_spec _ hp
+  rw [List.map_fst_zip (by omega), List.map_snd_zip (by omega), hbase] at h4
+  rw [List.length_zip, hbl, Nat.min_self] at h1 h4
+  unfold calculusAddition
+  simp only
+  generalize (s.zip (List.replicate (s.length - 1) 0 ++ [b])).foldr addStep (0, []) = r
+    at h1 h2 h3 h4
+  obtain ⟨c, ds⟩ := r
+  simp only at h1 h2 h3 h4
+  simp only [List.head?_cons, List.tail_cons, Option.some.injEq]
+  have hc : c = 0 ∨ c = 1 := by omega
+  rcases hc with rfl | rfl
+  · simp only [if_true]
+    refine ⟨Dec.canonical_of_lower ds h2 ?_ ?_, by omega⟩
+    · intro h; subst h; simp at h1; omega
+    · intro h2l
+      rw [h1] at h2l ⊢
+      have := hs.lower h2l
+      omega
+  · simp only [show ¬ (1 = 0) by omega, if_false]
+    refine ⟨Dec.canonical_cons_of_ne_zero 1 ds (by omega) (by omega) h2, ?_⟩
+    rw [Dec.toNat_cons, h1]
+    omega
+
+/-! ## multiplication -/
+
+theorem mulStep_foldr_spec (b : Nat) (hb1 : 1 ≤ b) (s : List Nat) (hs : ∀ d ∈ s, d < 10) :
+    (s.foldr (mulStep b) (0, [])).2.length = s.length ∧
+    (∀ d ∈ (s.foldr (mulStep b) (0, [])).2, d < 10) ∧
+    (s.foldr (mulStep b) (0, [])).1 < b ∧
+    (s.foldr (mulStep b) (0, [])).1 * 10 ^ s.length + Dec.toNat (s.foldr (mulStep b) (0, [])).2 =
+      Dec.toNat s * b := by
+  induction s with
+  | nil => simp [Dec.toNat]; omega
+  | cons x s ih =>
+    obtain ⟨ih1, ih2, ih3, ih4⟩ := ih (fun q hq => hs q (by simp [hq]))
+    have hx := hs x (by simp)
+    simp only [List.foldr_cons, List.length_cons]
+    generalize s.foldr (mulStep b) (0, []) = r at ih1 ih2 ih3 ih4
+    obtain ⟨c, ds⟩ := r
+    simp only at ih1 ih2 ih3 ih4
+    simp only [mulStep]
+    have hxb : x * b ≤ 9 * b := Nat.mul_le_mul_right _ (by omega)
+    refine ⟨by simp [ih1], ?_, by omega, ?_⟩
+    · intro d hd
+      simp at hd
+      rcases hd with rfl | hd
+      · omega
+      · exact ih2 d hd
+    · rw [Dec.toNat_cons, Dec.toNat_cons, ih1, Nat.pow_succ]
+      have hs := Nat.div_add_mod (x * b + c) 10
+      generalize (x * b + c) / 10 = q at hs ⊢
+      generalize (x * b + c) % 10 = m at hs ⊢
+      grind
+
+theorem pushCarry_two (r : Nat) (acc : List Nat) (hr : r < 10) :
+    pushCarry 2 r acc = if r > 0 then r :: acc else acc := by
+  have h1 : r / 10 = 0 := by omega
+  have h2 : r % 10 = r := by omega
+  simp [pushCarry, h1, h2]
+
+theorem calculusMultiplication_spec (s : Dec) (b : Nat) (hs : s.Canonical) (hb : b < 10) :
+    (calculusMultiplication s b).Canonical ∧ (calculusMultiplication s b).toNat = s.toNat * b := by
+  unfold calculusMultiplication
+  by_cases h0 : b = 0
+  · subst h0
+    exact ⟨Dec.canonical_zero, rfl⟩
+  by_cases h1 : b = 1
+  · subst h1
+    simp only [if_neg h0, if_true]
+    exact ⟨hs, by omega⟩
+  simp only [if_neg h0, if_neg h1]
+  obtain ⟨g1, g2, g3, g4⟩ := mulStep_foldr_spec b (by omega) s hs.digits
+  generalize s.foldr (mulStep b) (0, []) = r at g1 g2 g3 g4
+  obtain ⟨c, ds⟩ := r
+  simp only at g1 g2 g3 g4
+  rw [pushCarry_two c ds (by omega)]
+  by_cases hc : c > 0
+  · simp only [if_pos hc]
+    refine ⟨Dec.canonical_cons_of_ne_zero c ds (by omega) (by omega) g2, ?_⟩
+    rw [Dec.toNat_cons, g1]
+    exact g4
+  · simp only [if_neg hc]
+    have hc0 : c = 0 := by omega
+    subst hc0
+    refine ⟨Dec.canonical_of_lower ds g2 ?_ ?_, by omega⟩
+    · intro h; subst h; have := hs.length_pos; simp at g1; omega
+    · intro h2l
+      rw [g1] at h2l ⊢
+      have h5 := hs.lower h2l
+      have h6 : Dec.toNat s * 1 ≤ Dec.toNat s * b := Nat.mul_le_mul_left _ (by omega)
+      omega
+
+/-! ## division -/
+
+theorem divStep_eq (b : Nat) (st : List Nat × Nat) (x : Nat) :
+    divStep b st x = ((x + st.2 * 10) / b :: st.1, (x + st.2 * 10) % b) := by
+  unfold divStep
+  simp only
+  split
+  · rw [Nat.mod_def, Nat.mul_comm b]
+  · rename_i h
+    have h : x + st.2 * 10 < b := by omega
+    rw [Nat.div_eq_of_lt h, Nat.mod_eq_of_lt h]
+
+theorem divStep_foldl_spec (b : Nat) (hb : 0 < b) (r : List Nat) (hr : ∀ d ∈ r, d < 10) :
+    (r.reverse.foldl (divStep b) ([], 0)).1.length = r.length ∧
+    (∀ d ∈ (r.reverse.foldl (divStep b) ([], 0)).1, d < 10) ∧
+    (r.reverse.foldl (divStep b) ([], 0)).2 < b ∧
+    Dec.toNat (r.reverse.foldl (divStep b) ([], 0)).1.reverse * b +
+      (r.reverse.foldl (divStep b) ([], 0)).2 = Dec.toNat r.reverse := by
+  induction r with
+  | nil => simp [Dec.toNat]; exact hb
+  | cons x r ih =>
+    obtain ⟨ih0, ih1, ih2, ih3⟩ := ih (fun q hq => hr q (by simp [hq]))
+    have hx := hr x (by simp)
+    rw [Dec.toNat_reverse_cons, List.reverse_cons, List.foldl_append]
+    simp only [List.foldl_cons, List.foldl_nil]
+    generalize r.reverse.foldl (divStep b) ([], 0) = st at ih0 ih1 ih2 ih3
+    obtain ⟨out, rem⟩ := st
+    simp only at ih0 ih1 ih2 ih3
+    rw [divStep_eq b]
+    simp only
+    have hcur : x + rem * 10 < b * 10 := by omega
+    have hq : (x + rem * 10) / b < 10 := Nat.div_lt_of_lt_mul hcur
+    refine ⟨by simp [ih0], ?_, Nat.mod_lt _ hb, ?_⟩
+    · intro d hd
+      simp at hd
+      rcases hd with rfl | hd
+      · exact hq
+      · exact ih1 d hd
+    · rw [Dec.toNat_reverse_cons]
+      have hs := Nat.div_add_mod (x + rem * 10) b
+      generalize (x + rem * 10) / b = q at hs ⊢
+      generalize (x + rem * 10) % b = m at hs ⊢
+      grind
+
+theorem div_mod_of_eq (n b q m : Nat) (h : q * b + m = n) (hm : m < b) :
+    q = n / b ∧ m = n % b := by
+  have hb : 0 < b := by omega
+  have := (Nat.div_mod_unique (a := n) (c := m) (d := q) hb).mpr ⟨by rw [Nat.mul_comm]; omega, hm⟩
+  exact ⟨this.1.symm, this.2.symm⟩
+
+theorem calculusDivision_spec (s : Dec) (b : Nat) (hs : s.Canonical) (hb : b < 10) (hb1 : 1 ≤ b) :
+    (calculusDivision s b).1.Canonical ∧ (calculusDivision s b).1.toNat = s.toNat / b ∧
+    (calculusDivision s b).2.Canonical ∧ (calculusDivision s b).2.toNat = s.toNat % b := by
+  unfold calculusDivision
+  have h0 : b ≠ 0 := by omega
+  simp only [if_neg h0]
+  by_cases h1 : b = 1
+  · subst h1
+    simp only [if_true]
+    exact ⟨hs, by simp, Dec.canonical_zero, by simp [Dec.toNat, Nat.mod_one]⟩
+  simp only [if_neg h1]
+  split
+  · rename_i hc
+    obtain ⟨hl, hd⟩ := hc
+    match s, hl, hd with
+    | [d], _, hd =>
+      simp only [List.headD_cons] at hd ⊢
+      refine ⟨Dec.canonical_zero, ?_, Dec.canonical_single d (by omega), ?_⟩
+      · rw [Dec.toNat_single, Dec.toNat_single, Nat.div_eq_of_lt hd]
+      · simp [Dec.toNat, Nat.mod_eq_of_lt hd]
+  · have hd : ∀ d ∈ s.reverse, d < 10 := fun d hd => hs.digits d (by simpa using hd)
+    obtain ⟨_, g1, g2, g3⟩ := divStep_foldl_spec b (by omega) s.reverse hd
+    rw [List.reverse_reverse] at g1 g2 g3
+    generalize s.foldl (divStep b) ([], 0) = st at g1 g2 g3
+    obtain ⟨out, rem⟩ := st
+    simp only at g1 g2 g3 ⊢
+    have hod : ∀ d ∈ out.reverse, d < 10 := fun d hd => g1 d (by simpa using hd)
+    have := div_mod_of_eq _ _ _ _ g3 g2
+    refine ⟨canonical_stripZeros _ hod, ?_, Dec.canonical_single rem (by omega), ?_⟩
+    · rw [toNat_stripZeros]; exact this.1
+    · rw [Dec.toNat_single]; exact this.2
+
+/-! ## subtraction -/
+
+theorem borrow_spec (r : List Nat) (hr : ∀ d ∈ r, d < 10) (hpos : 1 ≤ Dec.toNat r.reverse) :
+    (∀ d ∈ borrow r, d < 10) ∧ Dec.toNat (borrow r).reverse + 1 = Dec.toNat r.reverse := by
+  induction r with
+  | nil => simp [Dec.toNat] at hpos
+  | cons d r ih =>
+    have hr' : ∀ e ∈ r, e < 10 := fun q hq => hr q (by simp [hq])
+    have hd := hr d (by simp)
+    cases d with
+    | zero =>
+      rw [Dec.toNat_reverse_cons] at hpos
+      obtain ⟨i1, i2⟩ := ih hr' (by omega)
+      simp only [borrow]
+      refine ⟨?_, ?_⟩
+      · intro e he
+        simp at he
+        rcases he with rfl | he
+        · omega
+        · exact i1 e he
+      · rw [Dec.toNat_reverse_cons, Dec.toNat_reverse_cons]; omega
+    | succ d =>
+      simp only [borrow]
+      refine ⟨?_, ?_⟩
+      · intro e he
+        simp at he
+        rcases he with rfl | he
+        · omega
+        · exact hr' e he
+      · rw [Dec.toNat_reverse_cons, Dec.toNat_reverse_cons]; omega
+
+theorem calculusSubtraction_spec (s : Dec) (b : Nat) (hs : s.Canonical) (_hb : b < 10)
+    (h : b ≤ s.toNat) :
+    (calculusSubtraction s b).Canonical ∧ (calculusSubtraction s b).toNat = s.toNat - b := by
+  have hsr : s = s.reverse.reverse := by simp
+  have hd : ∀ d ∈ s.reverse, d < 10 := fun d hd => hs.digits d (by simpa using hd)
+  rw [hsr] at h
+  rw [show Dec.toNat s = Dec.toNat s.reverse.reverse by rw [← hsr]]
+  unfold calculusSubtraction
+  generalize s.reverse = r at hd h
+  match r, hd, h with
+  | [], _, h =>
+    simp only
+    exact ⟨Dec.canonical_zero, by simp [Dec.toNat]⟩
+  | last :: pre, hd, h =>
+    simp only
+    have hl := hd last (by simp)
+    have hp : ∀ e ∈ pre, e < 10 := fun q hq => hd q (by simp [hq])
+    rw [Dec.toNat_reverse_cons] at h ⊢
+    split
+    · refine ⟨canonical_stripZeros _ ?_, ?_⟩
+      · intro e he
+        simp at he
+        rcases he with he | rfl
+        · exact hp e he
+        · omega
+      · rw [toNat_stripZeros, Dec.toNat_append_single]; omega
+    · obtain ⟨b1, b2⟩ := borrow_spec pre hp (by omega)
+      refine ⟨canonical_stripZeros _ ?_, ?_⟩
+      · intro e he
+        simp at he
+        rcases he with he | rfl
+        · exact b1 e he
+        · omega
+      · rw [toNat_stripZeros, Dec.toNat_append_single]; omega
+
+/-! ## rendering of a natural number -/
+
+theorem Dec.ofNat_lt (n : Nat) (h : n < 10) : Dec.ofNat n = [n] := by
+  unfold Dec.ofNat
+  rw [Nat.toDigits_of_lt_base h]
+  simp [Nat.toNat_digitChar_sub_48_of_lt_ten h]
+
+theorem Dec.ofNat_ge (n : Nat) (h : 10 ≤ n) : Dec.ofNat n = Dec.ofNat (n / 10) ++ [n % 10] := by
+  unfold Dec.ofNat
+  rw [Nat.toDigits_of_base_le (by omega) h]
+  simp [Nat.toNat_digitChar_sub_48_of_lt_ten (Nat.mod_lt n (by omega : 0 < 10))]
+
+theorem Dec.ofNat_spec (n : Nat) :
+    (∀ d ∈ Dec.ofNat n, d < 10) ∧ Dec.toNat (Dec.ofNat n) = n ∧
+    (1 ≤ n → (Dec.ofNat n).head? ≠ some 0) ∧ Dec.ofNat n ≠ [] := by
+  induction n using Nat.strongRecOn with
+  | _ n ih =>
+    by_cases h : n < 10
+    · rw [Dec.ofNat_lt n h]
+      refine ⟨by simpa using h, Dec.toNat_single n, ?_, by simp⟩
+      intro h1
+      simp
+      omega
+    · have h : 10 ≤ n := by omega
+      obtain ⟨i1, i2, i3, i4⟩ := ih (n / 10) (by omega)
+      rw [Dec.ofNat_ge n h]
+      refine ⟨?_, ?_, ?_, by simp⟩
+      · intro d hd
+        simp at hd
+        rcases hd with hd | rfl
+        · exact i1 d hd
+        · omega
+      · rw [Dec.toNat_append_single, i2]; omega
+      · intro _
+        have := i3 (by omega)
+        cases hq : Dec.ofNat (n / 10) with
+        | nil => exact absurd hq i4
+        | cons a l => rw [hq] at this; simpa using this
+
+theorem Dec.ofNat_canonical (n : Nat) : (Dec.ofNat n).Canonical ∧ Dec.toNat (Dec.ofNat n) = n := by
+  obtain ⟨h1, h2, h3, h4⟩ := Dec.ofNat_spec n
+  refine ⟨⟨h1, h4, ?_⟩, h2⟩
+  intro h0
+  by_cases hn : 1 ≤ n
+  · exact absurd h0 (h3 hn)
+  · have : n = 0 := by omega
+    subst this
+    rw [Dec.ofNat_lt 0 (by omega)]
+
 end Dsw
